@@ -797,5 +797,12 @@ func cmdSelftest() int {
 		return 1
 	}
 	fmt.Print("solver: ", string(out))
+	// differential self-test of the string / regexp intrinsics against reference loops (harness/utils)
+	if _, ok := loadChecks()["SELF"]; ok {
+		if rc := cmdCheck([]string{"SELF", "--tier", "quick"}); rc != 0 {
+			fmt.Println("selftest: the intrinsic self-test reported a violation: the engine must not be trusted")
+			return 1
+		}
+	}
 	return 0
 }
